@@ -88,6 +88,8 @@ func (s *sim) judgeBlock(chain *core.BlockChain, b *types.Block) *blockFacts {
 		n         int      // applied transactions of this account in the block
 		unmodeled bool     // a transaction whose value movement the harness cannot model
 		terms     []string
+		clears    []*big.Int // for successful slot-clearing calls: min(gasUsed/2, 15000)*price
+
 	}
 	tracked := map[common.Address]*track{}
 	var order []common.Address
@@ -132,7 +134,12 @@ func (s *sim) judgeBlock(chain *core.BlockChain, b *types.Block) *blockFacts {
 		// gas accounting
 		intr := intrinsicGas(f.To, f.Data)
 		if gasUsed < intr || gasUsed > f.Gas {
-			bf.add("gas-used-out-of-bounds", "%s: gasUsed=%d, intrinsic=%d, limit=%d", lbl, gasUsed, intr, f.Gas)
+			cls := "gas-used-out-of-bounds"
+			if gasUsed <= f.Gas && 2*gasUsed >= intr && s.mayClearSlot(f) {
+				// only possible if the node reports gas AFTER the storage refund (capped at half)
+				cls = "gas-used-below-intrinsic-after-sstore-refund"
+			}
+			bf.add(cls, "%s: gasUsed=%d, intrinsic=%d, limit=%d", lbl, gasUsed, intr, f.Gas)
 		}
 		if rc.GasUsed != gasUsed {
 			bf.add("receipt-gas-inconsistent", "%s: receipt.GasUsed=%d but cumulative difference=%d", lbl, rc.GasUsed, gasUsed)
@@ -177,6 +184,15 @@ func (s *sim) judgeBlock(chain *core.BlockChain, b *types.Block) *blockFacts {
 					moved.Set(f.Value)
 				}
 			}
+			if s.mayClearSlot(f) && rc.Status == 1 {
+				rf := gasUsed / 2
+				if rf > 15000 {
+					rf = 15000
+				}
+				t.clears = append(t.clears, new(big.Int).Mul(new(big.Int).SetUint64(rf), f.Price))
+				s.r.Probe("applied.slot-clearing-call")
+			}
+			s.probeApplied(at, rc.Status, moved)
 			t.run.Sub(t.run, fee)
 			t.run.Sub(t.run, moved)
 			t.terms = append(t.terms, fmt.Sprintf("%s: -%d*%v -%v(status %d)", s.label(hash), gasUsed, f.Price, moved, rc.Status))
@@ -216,6 +232,11 @@ func (s *sim) judgeBlock(chain *core.BlockChain, b *types.Block) *blockFacts {
 			cls := "balance-delta-mismatch"
 			if t.n == 0 && len(t.terms) == 0 {
 				cls = "untouched-account-changed"
+			} else if explainedBySstoreRefund(diff, t.clears) {
+				// the sender was charged (gasUsed - refund)*price although the receipt (and
+				// header.GasRewards) say gasUsed: its own class, so that this one cause can be
+				// looked past without hiding other charge errors
+				cls = "charged-less-than-receipt-gas-by-sstore-refund"
 			}
 			bf.add(cls, "block %d: %s balance %v -> %v, expected %v (off by %v); terms: %s", b.NumberU64(), t.name, pre.GetBalance(addr), got, t.run, diff, strings.Join(t.terms, "; "))
 		}
@@ -255,4 +276,72 @@ func (s *sim) checkNode(name string, chain *core.BlockChain) {
 			}
 		}
 	}
+}
+
+// explainedBySstoreRefund: diff (actual - expected balance) equals the refund value of a
+// non-empty subset of the account's slot-clearing calls in the block.
+func explainedBySstoreRefund(diff *big.Int, clears []*big.Int) bool {
+	if diff.Sign() <= 0 || len(clears) == 0 || len(clears) > 10 {
+		return false
+	}
+	for mask := 1; mask < 1<<uint(len(clears)); mask++ {
+		sum := new(big.Int)
+		for i, c := range clears {
+			if mask&(1<<uint(i)) != 0 {
+				sum.Add(sum, c)
+			}
+		}
+		if sum.Cmp(diff) == 0 {
+			return true
+		}
+	}
+	return false
+}
+
+func (s *sim) probeApplied(at appliedTx, status uint64, moved *big.Int) {
+	r := s.r
+	if at.e == nil {
+		r.Probe("applied.unregistered")
+		return
+	}
+	if status == 0 {
+		r.Probe("applied.failed-" + at.e.kind.String())
+	} else {
+		r.Probe("applied.ok-" + at.e.kind.String())
+		if at.e.kind == kStake && moved.Sign() > 0 {
+			r.Probe("applied.tokens-staked")
+		}
+		if at.e.kind == kCreate && moved.Sign() > 0 {
+			r.Probe("applied.create-with-value")
+		}
+	}
+	if at.e.garbage {
+		r.Probe("applied.garbage-staking-payload")
+	}
+	if at.gasUsed == at.e.f.Gas && at.e.kind != kTransfer {
+		r.Probe("applied.all-gas-used")
+	}
+}
+
+// mayClearSlot: the transaction calls an address at which a storage writer may live (creations
+// with the same sender and nonce compete for one address) with a zero value word.
+func (s *sim) mayClearSlot(f *txFields) bool {
+	if f.To == nil {
+		return false
+	}
+	w := false
+	for _, c := range s.contracts {
+		if c.addr == *f.To && c.typ == cWriter {
+			w = true
+		}
+	}
+	if !w {
+		return false
+	}
+	for i := 32; i < 64 && i < len(f.Data); i++ {
+		if f.Data[i] != 0 {
+			return false
+		}
+	}
+	return true
 }
